@@ -610,6 +610,16 @@ func (g *G) adminOp() {
 		if r.P(1, 12) {
 			na = "bad"
 		}
+		if r.P(1, 12) {
+			// a proper address with white space around it is not an address: refused, and the list keeps its length - which the
+			// last-admin guard then shows
+			who := g.sender(t)
+			g.emit("addadmin %s %d p%d", who, t.id, r.N(10))
+			if len(t.admins) == 1 {
+				g.emit("rmadmin %s %d %s", t.admins[0], t.id, t.admins[0])
+			}
+			return
+		}
 		g.emit("addadmin %s %d %s", g.sender(t), t.id, na)
 		if !containsFold(t.admins, na) && na != "bad" {
 			t.admins = append(t.admins, strings.ToLower(na))
@@ -1057,6 +1067,11 @@ func (g *G) roundScript() {
 		var es []string
 		for i, n := range commonN {
 			es = append(es, e(g.entry(n, commonO[i]))) // every validator spells it its own way
+		}
+		if len(es) > 1 && r.P(1, 3) {
+			// the same answer as two groups of entries of the one topic: a legal ballot, every group counts
+			k := 1 + r.N(len(es)-1)
+			return "O:" + strings.Join(es[:k], ",") + ";O:" + strings.Join(es[k:], ",")
 		}
 		return "O:" + strings.Join(es, ",")
 	}
